@@ -8,8 +8,15 @@ O=$W/out/$i
 cd $W || exit 2
 git checkout -q -- . 
 run_demo() {
-  # demos differ: a build script producing `demo`, or a run script
-  if [ -f $O/build_demo.sh ]; then sh $O/build_demo.sh > $O/.build.log 2>&1 || { echo "demo build failed"; tail -5 $O/.build.log; return 99; }; fi
+  # demos differ: a build script producing `demo` (possibly also running it), or a run script
+  if [ -f $O/build_demo.sh ]; then
+    sh $O/build_demo.sh > $O/.build.log 2>&1; rc=$?
+    if [ $rc -ne 0 ]; then
+      if grep -q "error:" $O/.build.log && ! grep -q "FAIL" $O/.build.log; then echo "demo build failed"; tail -5 $O/.build.log; return 99; fi
+      cat $O/.build.log | tail -3; return 1      # the script ran the demo and it failed
+    fi
+    if grep -q "PASS" $O/.build.log && [ ! -f $O/run_demo.sh ]; then tail -1 $O/.build.log; return 0; fi
+  fi
   if [ -f $O/run_demo.sh ]; then ( cd $O && timeout 120 sh ./run_demo.sh ) ; return $?; fi
   ( cd $O && timeout 120 ./demo ); return $?
 }
